@@ -252,6 +252,30 @@ class FamilyC09:
                             "impl-vs-spec", f"{bname} {nm} 2021-11-07 01:30 New York fold={fold} on points at both readings of that hour "
                             f"and a microsecond outside: {got}, by instants {want}",
                             dict(family="c09-fold-map", op=nm, fold=fold, builder=bname, observed=str(got), expected=str(want))))
+        # regular expressions that carry their own flags (inline `(?a)`, `(?i)`, `(?s)`): the query means what `re` means
+        import re as _re
+
+        for pat in (r"(?a)\w+$", r"(?i)X", r"(?s)x.*", r"(?a)[\w ]*", r"(?x) x  # the letter"):
+            for kind in ("matches", "search"):
+                for bname, mk in (("TagQuery().a", lambda: tf.TagQuery().a), ("MeasurementQuery()", lambda: tf.MeasurementQuery())):
+                    want = []
+                    for po in pobjs[:60]:
+                        v = po.tags.get("a") if bname.startswith("Tag") else po.measurement
+                        if bname.startswith("Tag") and "a" not in po.tags:
+                            want.append(False)
+                        elif not isinstance(v, str):
+                            want.append(False)
+                        else:
+                            want.append((_re.match if kind == "matches" else _re.search)(pat, v) is not None)
+                    try:
+                        q = getattr(mk(), kind)(pat)
+                        got = [bool(q(po)) for po in pobjs[:60]]
+                    except Exception as e:
+                        got = "raised " + type(e).__name__ + ": " + str(e)[:60]
+                    if got != want and len(res.findings) < 20:
+                        res.findings.append(Finding(
+                            "impl-vs-spec", f"{bname}.{kind}({pat!r}) on 60 points of the universe: {str(got)[:160]}, by `re.{'match' if kind == 'matches' else 'search'}` {str(want)[:120]}",
+                            dict(family="c09-inline-flags", pattern=pat, kind=kind, builder=bname, observed=str(got)[:200], expected=str(want)[:200])))
         # a query keeps its meaning when the builder it was made from is used again (another key, another transform,
         # another test): query objects do not share state
         def plus1(v):
@@ -322,7 +346,7 @@ class FamilyC09:
 
 def replay_c09(payload):
     tf = C.import_tinyflux()
-    if payload.get("family") in ("c09-range-end", "c09-fold-map", "c09-shared-builder"):
+    if payload.get("family") in ("c09-range-end", "c09-fold-map", "c09-shared-builder", "c09-inline-flags"):
         print(payload)
         return True
     q = V.build_query(payload["query"], tf)
